@@ -311,64 +311,185 @@ def _jacobian_rows(prog, rep):
                    "answers from variable containers only (by constructor signature or an isinstance guard returning None otherwise)" if not unguarded else
                    f"answers a row from the variables of .{unguarded[0]} without looking at its element expressions, although .{unguarded[0]} may be a MatrixExpression/VectorExpression (e.g. (X*Y).sum()): every entry comes out as if the elements were plain variables",
                    loc=loc, detail="container-operand")
-        if cname == "VectorSum":
-            ok = Frag(s, "Constant(1.0)", "Constant(0.0)", "if var in my_vars", "my_vars = set(self.vector._variables)")
-            rep.pin("jacobian_row shape rules", "R03.4", "VectorSum.jacobian_row", ok, "1 for members, 0 otherwise, in the order of `variables`" if ok else "row is not [1 if var in vector else 0 for var in variables]", loc=loc, detail="row")
-        elif cname == "LinearCombination":
-            ok = Frag(s, "for i, var in enumerate(self.vector._variables)", "var_to_coeff[var] = float(self.coefficients[i])", "[Constant(var_to_coeff.get(v, 0.0)) for v in variables]")
-            rep.pin("jacobian_row shape rules", "R03.4", "LinearCombination.jacobian_row", ok, "coefficient by position of the variable in the vector; 0 otherwise" if ok else "coefficients are not matched to variables by their position in the vector", loc=loc, detail="row")
-        elif cname == "QuadraticForm":
-            ok = Frag(s, "Q_plus_QT = self.matrix + self.matrix.T", "var_to_idx: dict[Variable, int] = {v: i for i, v in enumerate(vec_vars)}", "coeffs = Q_plus_QT[i, :]", "LinearCombination(coeffs, self.vector)", "i = var_to_idx[var]")
-            rep.pin("jacobian_row shape rules", "R03.4", "QuadraticForm.jacobian_row", ok, "row entry for x_i is ((Q + Q')[i, :]) . x" if ok else "row entry is not LinearCombination((Q + Q.T)[i, :], vector) for the position i of the variable", loc=loc, detail="row")
+        if cname in ("VectorSum", "LinearCombination", "QuadraticForm", "MatrixSum", "DotProduct"):
+            _row_by_scenario(prog, rep, cname, m)
         elif cname in ("VectorPowerSum", "VectorUnarySum"):
-            loops = [n for n in walk_local(m.node) if isinstance(n, ast.For)]
-            inner = [n for n in loops[0].body if isinstance(n, ast.If)] if loops else []
-            if not inner:
-                raise AnalysisError(f"{cname}.jacobian_row: membership test not found")
-            var = src(loops[0].target)
-            ok = src(inner[0].test) == f"{var} in my_vars"
-            rep.ob("R03.4", f"{cname}.jacobian_row", ok, "membership through the set of the vector's variables" if ok else f"membership test is `{src(inner[0].test)}`", loc=loc, detail="membership")
-            for conds, assigns, res, node in _append_paths(inner[0].body):
-                env = {var: X}
-                for nm, v in assigns:
-                    env[nm] = v
-                if cname == "VectorPowerSum":
-                    kc = None
-                    for t, pol in conds:
-                        if t in ("k == 1", "k == 2") and pol:
-                            kc = int(t[-1])
-                    if kc is None:
-                        tr = Tr({**env, "k": al.A("k")}, {"k": "k"})
-                        want = al.A("k") * al.POW(X, "k") / X
-                        key = "k general"
-                    else:
-                        tr = Tr({**env, "k": al.C(kc)})
-                        want = al.C(kc) * X.pow_int(kc - 1)
-                        key = f"k={kc}"
-                else:
-                    op = None
-                    for t, pol in conds:
-                        p = op_test(ast.parse(t, mode="eval").body)
-                        if p and pol and not p[2]:
-                            op = p[1][0]
-                    if op is None:
-                        continue
-                    tr = Tr(env)
-                    want = al.DREF(op, X, al.C(1))
-                    key = op
-                try:
-                    got = tr.t(res)
-                except Untranslatable as e:
-                    raise AnalysisError(f"{cname}.jacobian_row[{key}]: {e}")
-                ok = got.eq(want)
-                rep.ob("R03.4", f"{cname}.jacobian_row[{key}]", ok, f"entry = D f ({key}), same as the registered gradient rule" if ok else f"entry {got.key()[:70]} is not the derivative {want.key()[:70]}", loc=f"{m.module.rel}:{node.lineno}", detail="element-term")
-        elif cname == "DotProduct":
-            _dot_row(rep, m)
+            _elementwise_row(prog, rep, cname, m)
         elif cname == "BinaryOp":
-            _binop_row(rep, m)
-        elif cname == "MatrixSum":
-            ok = "Constant(1.0) if var in my_vars else Constant(0.0) for var in variables" in s
-            rep.pin("jacobian_row shape rules", "R03.4", "MatrixSum.jacobian_row", ok, "1 for members, 0 otherwise" if ok else "row is not [1 if var in matrix else 0]", loc=loc, detail="row")
+            _binop_row(rep, m, prog)
+
+
+ROW_SPECS = {
+    # kind: (containers, {scenario: expected entry}); scenarios are tuples of membership bits in container order
+    "VectorSum": (["self.vector._variables"], {(True,): ["Constant(1.0)"], (False,): ["Constant(0.0)"]}),
+    "LinearCombination": (["self.vector._variables"], {(True,): ["Constant(float(self.coefficients[POS]))"], (False,): ["Constant(0.0)"]}),
+    "QuadraticForm": (["self.vector._variables"], {(True,): ["LinearCombination((self.matrix + self.matrix.T)[POS, :], self.vector)", "LinearCombination((self.matrix.T + self.matrix)[POS, :], self.vector)"], (False,): ["Constant(0.0)"]}),
+    "MatrixSum": (["self.matrix.get_variables()"], {(True,): ["Constant(1.0)"], (False,): ["Constant(0.0)"]}),
+}
+
+
+def _row_by_scenario(prog, rep, cname, m):
+    """R03.4: the entry a jacobian_row method produces for one representative variable V of `variables`, under each
+    membership scenario (V is the element at position POS of the node's variable container / V is not in it), with
+    locals, lookup tables (dict / set comprehensions, loop-filled dicts, .get) and comprehensions resolved
+    symbolically.  It must be the derivative of the node with respect to V.  The text of the method is free."""
+    from ..symexec import RowWalker
+
+    def isinst(t):
+        if isinstance(t, ast.Call) and dotted(t.func) == "isinstance" and len(t.args) == 2 and src(t.args[0]).startswith("self.") and any(k in src(t.args[1]) for k in ("VectorVariable", "MatrixVariable")):
+            return True
+        return None
+
+    def run(member, extra=None):
+        w = RowWalker(prog, m.module, member, extra_facts=lambda t: (extra(t) if extra else None) if (extra and extra(t) is not None) else isinst(t))
+        try:
+            rows, plain = w.entries(m)
+        except Exception as e:
+            rep.undecided(f"{cname}.jacobian_row: symbolic walk failed ({type(e).__name__}: {str(e)[:60]})")
+            return None, None, w
+        return rows, plain, w
+
+    loc = m.loc
+    if cname != "DotProduct":
+        containers, table = ROW_SPECS[cname]
+        for scen, want in table.items():
+            rows, plain, w = run(dict(zip(containers, scen)))
+            if rows is None:
+                continue
+            label = "member at POS" if scen[0] else "not a member"
+            if not rows:
+                if set(w.unknown_families):
+                    rep.undecided(f"{cname}.jacobian_row: membership is decided through `{sorted(set(w.unknown_families))[0][:50]}`, which is not the node's variable container")
+                else:
+                    rep.undecided(f"{cname}.jacobian_row: no row entry found for a variable that is {label}")
+                continue
+            got = sorted({e.replace(" ", "") for r in rows for e in r})
+            ok = len(got) == 1 and all(len(r) == 1 for r in rows) and got[0] in [x.replace(" ", "") for x in want]
+            rep.ob("R03.4", f"{cname}.jacobian_row", ok,
+                   f"variable {label}: entry {want[0]}" if ok else
+                   f"for a variable that is {label} the row entry is `{got[0][:90]}`{' (and others)' if len(got) > 1 else ''}; the derivative is `{want[0]}`",
+                   loc=loc, detail=f"row:{'member' if scen[0] else 'absent'}")
+        return
+    # DotProduct: two containers; the identical-object case and the partition of the general case
+    L, R = "self.left._variables", "self.right._variables"
+
+    def same(flag):
+        def f(t):
+            if isinstance(t, ast.Compare) and len(t.ops) == 1 and {src(t.left), src(t.comparators[0])} == {"self.left", "self.right"} and isinstance(t.ops[0], (ast.Is, ast.IsNot)):
+                return flag if isinstance(t.ops[0], ast.Is) else (not flag)
+            return None
+        return f
+
+    for mem, want in ((True, "BinaryOp(Constant(2.0),V,'*')"), (False, "Constant(0.0)")):
+        rows, plain, w = run({L: mem, R: mem}, same(True))
+        if rows is None:
+            continue
+        got = sorted({e.replace(" ", "") for r in rows for e in r})
+        if not got:
+            rep.undecided("DotProduct.jacobian_row: no row entry found in the x.x case")
+            continue
+        ok = got in ([want], [want.replace("Constant(2.0),V", "V,Constant(2.0)")])
+        rep.ob("R03.4", "DotProduct.jacobian_row", ok, f"x.x (identical object), variable {'in x' if mem else 'not in x'}: entry {want}" if ok else f"x.x case: a variable {'of x' if mem else 'outside x'} gets the entry `{got[0][:70]}`; the derivative is {want}", loc=loc, detail=f"same-vector:{'member' if mem else 'absent'}")
+    exp = {
+        (True, True): ["BinaryOp(self.right._variables[POS_0],self.left._variables[POS_1],'+')", "BinaryOp(self.left._variables[POS_1],self.right._variables[POS_0],'+')"],
+        (True, False): ["self.right._variables[POS_0]"],
+        (False, True): ["self.left._variables[POS_1]"],
+        (False, False): ["Constant(0.0)"],
+    }
+    for (inL, inR), want in exp.items():
+        rows, plain, w = run({L: inL, R: inR}, same(False))
+        if rows is None:
+            continue
+        got = sorted({e.replace(" ", "") for r in rows for e in r})
+        if not got:
+            rep.ob("R03.4", "DotProduct.jacobian_row", False, f"no entry is appended when in-left={inL}, in-right={inR}: the row gets shorter than `variables`", loc=loc, detail=f"partition:{'L' if inL else '-'}{'R' if inR else '-'}") if rows == [] and not plain else rep.undecided(f"DotProduct.jacobian_row: no row entry found for in-left={inL}, in-right={inR}")
+            continue
+        ok = len(got) == 1 and got[0] in want
+        rep.ob("R03.4", "DotProduct.jacobian_row", ok,
+               f"in-left={inL}, in-right={inR}: entry {want[0]}" if ok else
+               f"a variable with in-left={inL}, in-right={inR} gets the entry `{got[0][:70]}`; the derivative is {want[0]}" + (": the contribution of the other operand is dropped (x[0:2].dot(x[1:3]) gives [2,3,2] instead of [2,4,2])" if inL and inR else ""),
+               loc=loc, detail=f"partition:{'L' if inL else '-'}{'R' if inR else '-'}")
+
+
+def _elementwise_row(prog, rep, cname, m):
+    """sum_i f(x_i): the entry for a member variable V is f'(V), for every exponent case / every unary operator;
+    0 for a non-member.  Entries come from the row walker; f' is compared in the algebra normal form."""
+    from ..symexec import RowWalker
+    from ..dispatch import unary_ops
+
+    X = al.A("x")
+    cont = "self.vector._variables"
+    if cname == "VectorPowerSum":
+        cases = [("k=1", {"self.power": 1}), ("k=2", {"self.power": 2}), ("k general", {"self.power": None})]
+    else:
+        cases = [(op, {"self.op": op}) for op in unary_ops(prog)]
+    n_ok = 0
+    for key, fixed in cases:
+        def facts(t, fixed=fixed):
+            if isinstance(t, ast.Call) and dotted(t.func) == "isinstance" and len(t.args) == 2 and src(t.args[0]).startswith("self."):
+                return True
+            if isinstance(t, ast.Compare) and len(t.ops) == 1:
+                l = src(t.left)
+                if l in fixed:
+                    c = t.comparators[0]
+                    if isinstance(t.ops[0], (ast.Eq, ast.NotEq)) and isinstance(c, ast.Constant):
+                        hit = fixed[l] == c.value
+                        return hit if isinstance(t.ops[0], ast.Eq) else (not hit)
+                    if isinstance(t.ops[0], (ast.In, ast.NotIn)) and isinstance(c, (ast.Tuple, ast.List, ast.Set)):
+                        hit = fixed[l] in [e.value for e in c.elts if isinstance(e, ast.Constant)]
+                        return hit if isinstance(t.ops[0], ast.In) else (not hit)
+            return None
+
+        for member in (True, False):
+            w = RowWalker(prog, m.module, {cont: member}, extra_facts=facts)
+            w.consts = {k_: v_ for k_, v_ in fixed.items() if v_ is not None}
+            try:
+                rows, plain = w.entries(m)
+            except Exception as e:
+                rep.undecided(f"{cname}.jacobian_row[{key}]: symbolic walk failed ({type(e).__name__})")
+                continue
+            got = sorted({e for r in rows for e in r})
+            if not rows:
+                if plain and all(p_ == "None" for p_ in plain):
+                    continue        # this case is left to the general path
+                if set(w.unknown_families):
+                    rep.undecided(f"{cname}.jacobian_row: membership is decided through `{sorted(set(w.unknown_families))[0][:50]}`, which is not the node's variable container")
+                else:
+                    rep.undecided(f"{cname}.jacobian_row[{key}]: no row entry found")
+                continue
+            if not member:
+                ok = [g.replace(" ", "") for g in got] == ["Constant(0.0)"]
+                rep.ob("R03.4", f"{cname}.jacobian_row[{key}]", ok, "non-member: 0" if ok else f"a variable that is not in the vector gets the entry `{got[0][:60]}` instead of 0", loc=m.loc, detail="absent")
+                continue
+            if len(got) != 1:
+                rep.undecided(f"{cname}.jacobian_row[{key}]: {len(got)} different entries for one scenario")
+                continue
+            text = got[0].replace("self.power", "k_").replace("self.op", "op_")
+            node = ast.parse(text, mode="eval").body
+            if cname == "VectorPowerSum":
+                if fixed["self.power"] is None:
+                    tr = Tr({"V": X, "k_": al.A("k")}, {"k_": "k"})
+                    want = al.A("k") * al.POW(X, "k") / X
+                else:
+                    kc = fixed["self.power"]
+                    tr = Tr({"V": X, "k_": al.C(kc)})
+                    want = al.C(kc) * X.pow_int(kc - 1)
+            else:
+                tr = Tr({"V": X})
+                try:
+                    want = al.DREF(key, X, al.C(1))
+                except KeyError:
+                    continue
+            try:
+                g = tr.t(node)
+            except Untranslatable as e:
+                rep.undecided(f"{cname}.jacobian_row[{key}]: entry `{text[:60]}` not translatable: {e}")
+                continue
+            ok = g.eq(want)
+            n_ok += 1
+            rep.ob("R03.4", f"{cname}.jacobian_row[{key}]", ok, f"entry = D f ({key}), same as the registered gradient rule" if ok else f"entry {g.key()[:70]} is not the derivative {want.key()[:70]}", loc=m.loc, detail="element-term")
+    if n_ok == 0:
+        rep.undecided(f"{cname}.jacobian_row: no element derivative could be read off")
 
 
 def _append_paths(body):
@@ -454,51 +575,87 @@ def _dot_row(rep, m):
     rep.pin('DotProduct.jacobian_row', "R03.4", "DotProduct.jacobian_row", ok, "partner element is the element at the same position of the other operand" if ok else "the lookup tables do not pair elements at the same position", loc=m.loc, detail="partner-position")
 
 
-def _binop_row(rep, m):
-    """Each propagation arm: (ops, constant side) -> allowed result form."""
+def _binop_row(rep, m, prog=None):
+    """BinaryOp.jacobian_row may answer from ONE operand's row only where a derivative law allows it:
+        d(f +- c) = df,  d(c + f) = df,  d(c * f) = d(f * c) = c * df  (entry-wise; Constant entries may be folded),
+    and must answer None (general path) otherwise -- in particular for c - f, f / g, f ** g and when no operand is a
+    Constant.  Decided by walking the method for every (operator, which side is a Constant, is the row entry a
+    Constant) scenario; the order / nesting of the tests and helper functions are free."""
+    from ..symexec import SymWalker
+
+    prog = prog or _PROGREF.get("prog")
+    ops = ["+", "-", "*", "/", "**"]
     n = 0
-    for st in m.node.body:
-        if not isinstance(st, ast.If):
-            continue
-        cs = conjuncts(st.test)
-        ops = None
-        side = None
-        for c in cs:
-            t = op_test(c)
-            if t and t[0] == "self.op" and not t[2]:
-                ops = set(t[1])
-            if isinstance(c, ast.Call) and dotted(c.func) == "isinstance" and src(c.args[1]) == "Constant" and src(c.args[0]) in ("self.left", "self.right"):
-                side = src(c.args[0])[5:]
-        if ops is None:
-            continue
-        n += 1
-        body = src(st.body)
-        other = "right" if side == "left" else "left"
-        construct = f"BinaryOp.jacobian_row[{'|'.join(sorted(ops))}, const={side}]"
-        if side is None:
-            rep.ob("R03.4", construct, False, f"propagation arm for {sorted(ops)} does not require the other operand to be a Constant node: d(f op g) is answered from one operand only", loc=f"{m.module.rel}:{st.lineno}", detail="guarded-by-constant")
-            continue
-        if ops <= {"+", "-"} and side == "right":
-            ok = f"return self.left.jacobian_row(variables)" in body
-            law = "d(f +- c) = df"
-        elif ops == {"+"} and side == "left":
-            ok = f"return self.right.jacobian_row(variables)" in body
-            law = "d(c + f) = df"
-        elif ops == {"*"}:
-            ok = f"row = self.{other}.jacobian_row(variables)" in body and f"c = self.{side}.value" in body and "Constant(c * e.value)" in body and "if isinstance(e, Constant)" in body and ("BinaryOp(Constant(c), e, '*')" in body.replace('"', "'") or "BinaryOp(e, Constant(c), '*')" in body.replace('"', "'"))
-            law = "d(c * f) = c * df"
-        else:
-            ok = False
-            law = f"no derivative law lets d(f {sorted(ops)} c) be read off the row of one operand with const={side}"
-        rep.ob("R03.4", construct, ok, law if ok else f"arm does not implement a valid law ({law})", loc=f"{m.module.rel}:{st.lineno}", detail="law")
-    if n < 4:
-        raise AnalysisError("BinaryOp.jacobian_row: propagation arms not recognised")
-    last = m.node.body[-1]
-    ok = isinstance(last, ast.Return) and isinstance(last.value, ast.Constant) and last.value.value is None
-    rep.ob("R03.4", "BinaryOp.jacobian_row[default]", ok, "every other shape returns None (general path)" if ok else "the default of BinaryOp.jacobian_row is not None", loc=m.loc, detail="default-none")
+    for op in ops:
+        for side in ("left", "right", None):
+            for elem_const in (False, True):
+                other = {"left": "right", "right": "left"}.get(side)
+
+                def facts(t, op=op, side=side, elem_const=elem_const):
+                    if isinstance(t, ast.Call) and dotted(t.func) == "isinstance" and len(t.args) == 2:
+                        what, kinds = src(t.args[0]), src(t.args[1])
+                        if what in ("self.left", "self.right") and "Constant" in kinds:
+                            return what == f"self.{side}"
+                        if what == "ELEM" and "Constant" in kinds:
+                            return elem_const
+                        return None
+                    if isinstance(t, ast.Call) and dotted(t.func) == "hasattr":
+                        return True
+                    if isinstance(t, ast.Compare) and len(t.ops) == 1:
+                        l = src(t.left)
+                        c = t.comparators[0]
+                        if l == "self.op":
+                            if isinstance(t.ops[0], (ast.Eq, ast.NotEq)) and isinstance(c, ast.Constant):
+                                return (c.value == op) == isinstance(t.ops[0], ast.Eq)
+                            if isinstance(t.ops[0], (ast.In, ast.NotIn)) and isinstance(c, (ast.Tuple, ast.List, ast.Set)):
+                                hit = op in [e.value for e in c.elts if isinstance(e, ast.Constant)]
+                                return hit == isinstance(t.ops[0], ast.In)
+                        if isinstance(c, ast.Constant) and c.value is None and "jacobian_row(" in l and isinstance(t.ops[0], (ast.Is, ast.IsNot)):
+                            return isinstance(t.ops[0], ast.IsNot)      # the operand did supply a row
+                    return None
+
+                w = SymWalker(prog, m.module, facts, lambda st, env: None, non_none=("ELEM",))
+                w.map_listcomps = True
+                try:
+                    vals = w.returns(m, {})
+                except Exception as e:
+                    rep.undecided(f"BinaryOp.jacobian_row: symbolic walk failed ({type(e).__name__}: {str(e)[:60]})")
+                    return
+                got = sorted({src(v).replace(" ", "") for v in vals})
+                n += 1
+                construct = f"BinaryOp.jacobian_row[{op}, const={side}]"
+                loc = m.loc
+                row = lambda s_: f"self.{s_}.jacobian_row(variables)"
+                if got == ["None"]:
+                    if elem_const is False:
+                        rep.ob("R03.4", construct, True, "answers None (general path)", loc=loc, detail="none", trivial=True)
+                    continue
+                allowed = None
+                law = ""
+                if side == "right" and op in ("+", "-"):
+                    allowed, law = [row("left")], "d(f +- c) = df"
+                elif side == "left" and op == "+":
+                    allowed, law = [row("right")], "d(c + f) = df"
+                elif side is not None and op == "*":
+                    cv = f"self.{side}.value"
+                    r_ = row(other)
+                    if elem_const:
+                        ents = [f"Constant({cv}*ELEM.value)", f"Constant(ELEM.value*{cv})"]
+                    else:
+                        ents = [f"BinaryOp(Constant({cv}),ELEM,'*')", f"BinaryOp(ELEM,Constant({cv}),'*')"]
+                    allowed, law = [f"MAP({r_},{e_})" for e_ in ents], "d(c * f) = c * df"
+                if allowed is None:
+                    why = {("-", "left"): "d(c - f) = -df, not df"}.get((op, side), f"no derivative law lets the row of f {op} g be read off one operand" + ("" if side else " when neither operand is a Constant"))
+                    rep.ob("R03.4", construct, False, f"answers `{got[0][:70]}` for {op!r} with const={side}: {why}", loc=loc, detail="law")
+                    continue
+                ok = len(got) == 1 and got[0] in [a_.replace(" ", "") for a_ in allowed]
+                rep.ob("R03.4", construct, ok, law if ok else f"answers `{got[0][:80]}`; the law {law} requires `{allowed[0]}`", loc=loc, detail=f"law:{'const-entry' if elem_const else 'entry'}")
+    rep.saw("BinaryOp.jacobian_row scenarios walked", n)
 
 
-# ------------------------------------------------------------------------------------------------ R03.5 / R03.6
+_PROGREF: dict = {}
+
+
 def _fast_paths(prog, rep):
     cj = prog.func("optyx.core.autodiff:compile_jacobian")
     s = src(cj.node)
